@@ -37,26 +37,26 @@ __CPROVER_ensures(next_id == xv_id_shadow)
 /* ================================================================================================================
  * ctx_store.c.  The cache is a heap list; every job of this part explores lists of at most XV_CS_MAX (2) entries at
  * acquire (3 at release) and is therefore marked `bounded:`.  use_cnt arithmetic is unbounded (1..INT_MAX-1).
- * Ghost constants (never assigned; bound by requires clauses): xv_g_n list length, xv_g_c0/xv_g_c1 use counts.
- * NOTE entries are always dereferenced through the list (L0/L1 or __CPROVER_old of them), never through a ghost pointer:
- * CBMC cannot dereference a pointer that is merely constrained to be equal to another one. */
-unsigned xv_g_n; int xv_g_c0, xv_g_c1;
-static inline void xv_cs_ghost_havoc(void) { xv_g_n = nondet_uint(); xv_g_c0 = nondet_int(); xv_g_c1 = nondet_int(); }
-
+ *
+ * The helper contracts below are ENFORCED in their own jobs (the harness lets the lock model build the list: CBMC can
+ * not follow a pointer that a requires clause merely constrains to equal another one, as le_prev would be, so the
+ * list is built by assignments) and REPLACE the helpers in the jobs of ctx_store_get_ctx / ctx_store_put, where their
+ * requires clauses -- lock held, list well formed -- become obligations at each call site. */
 #define CE_SZ sizeof(struct cache_entry)
 #define L0(C) ((C)->entries.lh_first)
 #define L1(C) (L0(C)->elem.le_next)
 #define L2(C) (L1(C)->elem.le_next)
-#define O0(C) __CPROVER_old(L0(C))      /* first / second entry of the list as the function found it */
+#define O0(C) __CPROVER_old(L0(C))      /* first / second entry of the list as the function found it (second: garbage if no first) */
 #define O1(C) __CPROVER_old(L1(C))
-#define CE_OK(e) ((e)->use_cnt >= 1 && (e)->use_cnt < INT_MAX && __CPROVER_is_fresh((e)->ssl_ctx, 1))
-/* the helpers' view of the invariant (I1, I2, distinct contexts by is_fresh) for a list of xv_g_n = 0..2 entries with use
- * counts xv_g_c0, xv_g_c1 */
-#define CS_LIST(C) ((C) == xv_cachep && xv_g_n <= 2 && \
-    (xv_g_n >= 1 ==> __CPROVER_is_fresh(L0(C), CE_SZ)) && (xv_g_n == 0 ==> L0(C) == NULL) && \
-    (xv_g_n >= 1 ==> (L0(C)->elem.le_prev == &L0(C) && CE_OK(L0(C)) && L0(C)->use_cnt == xv_g_c0)) && \
-    (xv_g_n >= 2 ==> __CPROVER_is_fresh(L1(C), CE_SZ)) && (xv_g_n == 1 ==> L1(C) == NULL) && \
-    (xv_g_n >= 2 ==> (L1(C)->elem.le_prev == &L1(C) && CE_OK(L1(C)) && L1(C)->use_cnt == xv_g_c1 && L2(C) == NULL)))
+#define HAD1(C) (O0(C) != NULL)
+#define HAD2(C) (O0(C) != NULL && O1(C) != NULL)
+#define CE_OK(e) (__CPROVER_rw_ok((e), CE_SZ) && (e)->use_cnt >= 1 && (e)->use_cnt < INT_MAX && (e)->ssl_ctx != NULL)
+/* the helpers' view of the invariant for a list of 0..2 entries: I1 links, I2 use counts, I3 distinct contexts */
+#define CS_LIST(C) ((C) == xv_cachep && \
+    (L0(C) == NULL || (CE_OK(L0(C)) && L0(C)->elem.le_prev == &L0(C) && \
+        (L1(C) == NULL || (CE_OK(L1(C)) && L1(C)->elem.le_prev == &L1(C) && L1(C)->ssl_ctx != L0(C)->ssl_ctx && L2(C) == NULL)))))
+#define HAS1(C) (L0(C) != NULL)
+#define HAS2(C) (L0(C) != NULL && L1(C) != NULL)
 /* 32-byte hash equality spelled out (quantifiers in clauses over heap objects did not evaluate correctly under DFCC) */
 #define XV_H4(a, b, i) ((a)[(i)] == (b)[(i)] && (a)[(i) + 1] == (b)[(i) + 1] && (a)[(i) + 2] == (b)[(i) + 2] && (a)[(i) + 3] == (b)[(i) + 3])
 #define HASH_SAME(a, b) (XV_H4(a, b, 0) && XV_H4(a, b, 4) && XV_H4(a, b, 8) && XV_H4(a, b, 12) && XV_H4(a, b, 16) && XV_H4(a, b, 20) && XV_H4(a, b, 24) && XV_H4(a, b, 28))
@@ -67,16 +67,16 @@ static inline void xv_cs_ghost_havoc(void) { xv_g_n = nondet_uint(); xv_g_c0 = n
 static struct cache_entry *cache_get(struct cache *cache, const uint8_t *hash)
 /* PO[C15] cache_get.called_with_lock_held */
 __CPROVER_requires(xv_lk_held)
-__CPROVER_requires(CS_LIST(cache) && __CPROVER_is_fresh(hash, 32))
-__CPROVER_assigns(xv_g_n >= 1: L0(cache)->use_cnt; xv_g_n >= 2: L1(cache)->use_cnt)
-__CPROVER_ensures(__CPROVER_return_value == NULL || (xv_g_n >= 1 && __CPROVER_return_value == L0(cache)) || (xv_g_n >= 2 && __CPROVER_return_value == L1(cache)))
+__CPROVER_requires(CS_LIST(cache) && __CPROVER_r_ok(hash, 32))
+__CPROVER_assigns(HAS1(cache): L0(cache)->use_cnt; HAS2(cache): L1(cache)->use_cnt)
+__CPROVER_ensures(__CPROVER_return_value == NULL || (HAS1(cache) && __CPROVER_return_value == L0(cache)) || (HAS2(cache) && __CPROVER_return_value == L1(cache)))
 /* PO[C18] cache_get.first_entry_hit_iff_hash_equal */
-__CPROVER_ensures(xv_g_n >= 1 ==> ((__CPROVER_return_value == L0(cache)) == HASH_SAME(L0(cache)->hash, hash)))
+__CPROVER_ensures(HAS1(cache) ==> ((__CPROVER_return_value == L0(cache)) == HASH_SAME(L0(cache)->hash, hash)))
 /* PO[C18] cache_get.second_entry_hit_iff_hash_equal_and_first_differs */
-__CPROVER_ensures(xv_g_n >= 2 ==> ((__CPROVER_return_value == L1(cache)) == (HASH_DIFFERS(L0(cache)->hash, hash) && HASH_SAME(L1(cache)->hash, hash))))
+__CPROVER_ensures(HAS2(cache) ==> ((__CPROVER_return_value == L1(cache)) == (HASH_DIFFERS(L0(cache)->hash, hash) && HASH_SAME(L1(cache)->hash, hash))))
 /* PO[C08,C18] cache_get.one_more_user_on_the_hit_entry_only */
-__CPROVER_ensures(xv_g_n >= 1 ==> L0(cache)->use_cnt == xv_g_c0 + (__CPROVER_return_value == L0(cache) ? 1 : 0))
-__CPROVER_ensures(xv_g_n >= 2 ==> L1(cache)->use_cnt == xv_g_c1 + (__CPROVER_return_value == L1(cache) ? 1 : 0))
+__CPROVER_ensures(HAS1(cache) ==> L0(cache)->use_cnt == __CPROVER_old(L0(cache)->use_cnt) + (__CPROVER_return_value == L0(cache) ? 1 : 0))
+__CPROVER_ensures(HAS2(cache) ==> L1(cache)->use_cnt == __CPROVER_old(L1(cache)->use_cnt) + (__CPROVER_return_value == L1(cache) ? 1 : 0))
 ;
 
 /* cache_find_entry: pure look-up by context */
@@ -85,9 +85,9 @@ static struct cache_entry *cache_find_entry(struct cache *cache, SSL_CTX *ssl_ct
 __CPROVER_requires(xv_lk_held)
 __CPROVER_requires(CS_LIST(cache))
 __CPROVER_assigns()
-__CPROVER_ensures((xv_g_n >= 1 && L0(cache)->ssl_ctx == ssl_ctx) ==> __CPROVER_return_value == L0(cache))
-__CPROVER_ensures((xv_g_n >= 2 && L0(cache)->ssl_ctx != ssl_ctx && L1(cache)->ssl_ctx == ssl_ctx) ==> __CPROVER_return_value == L1(cache))
-__CPROVER_ensures(((xv_g_n < 1 || L0(cache)->ssl_ctx != ssl_ctx) && (xv_g_n < 2 || L1(cache)->ssl_ctx != ssl_ctx)) ==> __CPROVER_return_value == NULL)
+__CPROVER_ensures((HAS1(cache) && L0(cache)->ssl_ctx == ssl_ctx) ==> __CPROVER_return_value == L0(cache))
+__CPROVER_ensures((HAS2(cache) && L0(cache)->ssl_ctx != ssl_ctx && L1(cache)->ssl_ctx == ssl_ctx) ==> __CPROVER_return_value == L1(cache))
+__CPROVER_ensures(((!HAS1(cache) || L0(cache)->ssl_ctx != ssl_ctx) && (!HAS2(cache) || L1(cache)->ssl_ctx != ssl_ctx)) ==> __CPROVER_return_value == NULL)
 ;
 
 /* cache_install: a NEW entry with exactly one user at the head; listed entries keep hash, context and use count
@@ -95,14 +95,14 @@ __CPROVER_ensures(((xv_g_n < 1 || L0(cache)->ssl_ctx != ssl_ctx) && (xv_g_n < 2 
 static struct cache_entry *cache_install(struct cache *cache, const uint8_t *hash, SSL_CTX *ssl_ctx)
 /* PO[C15] cache_install.called_with_lock_held */
 __CPROVER_requires(xv_lk_held)
-__CPROVER_requires(CS_LIST(cache) && __CPROVER_is_fresh(hash, 32) && ssl_ctx != NULL && XV_LIVE_OK(xv_heap_live))
-__CPROVER_assigns(L0(cache), xv_heap_live; xv_g_n >= 1: L0(cache)->elem.le_prev)
+__CPROVER_requires(CS_LIST(cache) && __CPROVER_r_ok(hash, 32) && ssl_ctx != NULL && XV_LIVE_OK(xv_heap_live))
+__CPROVER_assigns(L0(cache), xv_heap_live; HAS1(cache): L0(cache)->elem.le_prev)
 /* PO[C08,C18] cache_install.new_entry_one_user_this_hash_this_context */
 __CPROVER_ensures(__CPROVER_is_fresh(__CPROVER_return_value, CE_SZ) && __CPROVER_return_value->use_cnt == 1 && __CPROVER_return_value->ssl_ctx == ssl_ctx)
 __CPROVER_ensures(HASH_SAME(__CPROVER_return_value->hash, hash))
 /* PO[C15] cache_install.list_stays_well_formed */
 __CPROVER_ensures(L0(cache) == __CPROVER_return_value && __CPROVER_return_value->elem.le_prev == &L0(cache) && __CPROVER_return_value->elem.le_next == O0(cache) && \
-                  (xv_g_n >= 1 ==> O0(cache)->elem.le_prev == &__CPROVER_return_value->elem.le_next))
+                  (HAD1(cache) ==> O0(cache)->elem.le_prev == &__CPROVER_return_value->elem.le_next))
 __CPROVER_ensures(xv_heap_live == __CPROVER_old(xv_heap_live) + 1)
 ;
 
@@ -110,29 +110,181 @@ __CPROVER_ensures(xv_heap_live == __CPROVER_old(xv_heap_live) + 1)
  * The entry of that context loses one user; at 0 it is unlinked, its SSL_CTX freed exactly once and the entry freed;
  * the other entry keeps its use count, hash and context and stays listed */
 #define PUT_FIRST(C, x) (__CPROVER_old(L0(C)->ssl_ctx) == (x))
+#define OC0(C) __CPROVER_old(L0(C)->use_cnt)
+#define OC1(C) __CPROVER_old(L1(C)->use_cnt)
+#define PUT_F_KEEP(C, x) (PUT_FIRST(C, x) && OC0(C) > 1)
+#define PUT_F_LAST(C, x) (PUT_FIRST(C, x) && OC0(C) == 1)
+#define PUT_S_KEEP(C, x) (!PUT_FIRST(C, x) && OC1(C) > 1)
+#define PUT_S_LAST(C, x) (!PUT_FIRST(C, x) && OC1(C) == 1)
 static void cache_put(struct cache *cache, SSL_CTX *ssl_ctx)
 /* PO[C15] cache_put.called_with_lock_held */
 __CPROVER_requires(xv_lk_held)
-__CPROVER_requires(CS_LIST(cache) && xv_g_n >= 1 && (L0(cache)->ssl_ctx == ssl_ctx || (xv_g_n >= 2 && L1(cache)->ssl_ctx == ssl_ctx)))
-__CPROVER_requires(XV_LIVE_OK(xv_heap_live) && XV_LIVE_OK(xv_ctx_live) && XV_LIVE_OK(xv_ctxfree_calls) && xv_ctx_dead == NULL)
-__CPROVER_assigns(L0(cache), xv_heap_live, xv_ctx_live, xv_ctxfree_calls, xv_ctxfree_last, xv_ctx_dead, __CPROVER_object_whole(L0(cache)); xv_g_n >= 2: __CPROVER_object_whole(L1(cache)))
+__CPROVER_requires(CS_LIST(cache) && HAS1(cache) && (L0(cache)->ssl_ctx == ssl_ctx || (HAS2(cache) && L1(cache)->ssl_ctx == ssl_ctx)))
+__CPROVER_requires(XV_LIVE_OK(xv_heap_live) && XV_LIVE_OK(xv_ctx_live) && XV_LIVE_OK(xv_ctxfree_calls) && xv_ctx_dead == NULL && xv_hj < 32)
+__CPROVER_assigns(L0(cache), xv_heap_live, xv_ctx_live, xv_ctxfree_calls, xv_ctxfree_last, xv_ctx_dead, __CPROVER_object_whole(L0(cache)); HAS2(cache): __CPROVER_object_whole(L1(cache)))
 __CPROVER_frees(L0(cache), L1(cache))
-/* PO[C08,C18] cache_put.first_entry_put_not_last_user */
-__CPROVER_ensures((PUT_FIRST(cache, ssl_ctx) && xv_g_c0 > 1) ==> (L0(cache) == O0(cache) && O0(cache)->use_cnt == xv_g_c0 - 1 && O0(cache)->ssl_ctx == ssl_ctx && O0(cache)->elem.le_next == O1(cache) && \
-                  xv_ctxfree_calls == __CPROVER_old(xv_ctxfree_calls) && xv_heap_live == __CPROVER_old(xv_heap_live) && (xv_g_n >= 2 ==> O1(cache)->use_cnt == xv_g_c1)))
-/* PO[C08,C18] cache_put.first_entry_put_last_user_released_once */
-__CPROVER_ensures((PUT_FIRST(cache, ssl_ctx) && xv_g_c0 == 1) ==> (L0(cache) == O1(cache) && __CPROVER_was_freed(O0(cache)) && \
-                  xv_ctxfree_calls == __CPROVER_old(xv_ctxfree_calls) + 1 && xv_ctxfree_last == ssl_ctx && xv_heap_live == __CPROVER_old(xv_heap_live) - 1 && \
-                  (xv_g_n >= 2 ==> (O1(cache)->use_cnt == xv_g_c1 && O1(cache)->elem.le_prev == &L0(cache) && O1(cache)->elem.le_next == NULL))))
-/* PO[C08,C18] cache_put.second_entry_put_not_last_user */
-__CPROVER_ensures((!PUT_FIRST(cache, ssl_ctx) && xv_g_c1 > 1) ==> (L0(cache) == O0(cache) && O0(cache)->use_cnt == xv_g_c0 && O0(cache)->elem.le_next == O1(cache) && O1(cache)->use_cnt == xv_g_c1 - 1 && \
-                  xv_ctxfree_calls == __CPROVER_old(xv_ctxfree_calls) && xv_heap_live == __CPROVER_old(xv_heap_live)))
-/* PO[C08,C18] cache_put.second_entry_put_last_user_released_once */
-__CPROVER_ensures((!PUT_FIRST(cache, ssl_ctx) && xv_g_c1 == 1) ==> (L0(cache) == O0(cache) && O0(cache)->use_cnt == xv_g_c0 && O0(cache)->elem.le_next == NULL && __CPROVER_was_freed(O1(cache)) && \
-                  xv_ctxfree_calls == __CPROVER_old(xv_ctxfree_calls) + 1 && xv_ctxfree_last == ssl_ctx && xv_heap_live == __CPROVER_old(xv_heap_live) - 1))
+/* PO[C08,C18] cache_put.not_last_user_decrements_that_entry_only */
+__CPROVER_ensures(PUT_F_KEEP(cache, ssl_ctx) ==> (L0(cache) == O0(cache) && O0(cache)->use_cnt == OC0(cache) - 1 && O0(cache)->elem.le_next == O1(cache) && (HAD2(cache) ==> O1(cache)->use_cnt == OC1(cache))))
+__CPROVER_ensures(PUT_S_KEEP(cache, ssl_ctx) ==> (L0(cache) == O0(cache) && O0(cache)->use_cnt == OC0(cache) && O0(cache)->elem.le_next == O1(cache) && O1(cache)->use_cnt == OC1(cache) - 1))
+/* PO[C08,C18] cache_put.not_last_user_frees_nothing */
+__CPROVER_ensures((PUT_F_KEEP(cache, ssl_ctx) || PUT_S_KEEP(cache, ssl_ctx)) ==> (xv_ctxfree_calls == __CPROVER_old(xv_ctxfree_calls) && xv_heap_live == __CPROVER_old(xv_heap_live)))
+/* PO[C08,C18] cache_put.last_user_frees_context_and_entry_exactly_once */
+__CPROVER_ensures((PUT_F_LAST(cache, ssl_ctx) || PUT_S_LAST(cache, ssl_ctx)) ==> (xv_ctxfree_calls == __CPROVER_old(xv_ctxfree_calls) + 1 && xv_ctxfree_last == ssl_ctx && xv_heap_live == __CPROVER_old(xv_heap_live) - 1))
+__CPROVER_ensures(PUT_F_LAST(cache, ssl_ctx) ==> __CPROVER_was_freed(O0(cache)))
+__CPROVER_ensures(PUT_S_LAST(cache, ssl_ctx) ==> __CPROVER_was_freed(O1(cache)))
+/* PO[C15,C18] cache_put.last_user_unlinks_that_entry_only */
+__CPROVER_ensures(PUT_F_LAST(cache, ssl_ctx) ==> (L0(cache) == O1(cache) && (HAD2(cache) ==> (O1(cache)->use_cnt == OC1(cache) && O1(cache)->elem.le_prev == &L0(cache) && O1(cache)->elem.le_next == NULL))))
+__CPROVER_ensures(PUT_S_LAST(cache, ssl_ctx) ==> (L0(cache) == O0(cache) && O0(cache)->use_cnt == OC0(cache) && O0(cache)->elem.le_next == NULL && O0(cache)->elem.le_prev == &L0(cache)))
 /* PO[C18] cache_put.hashes_and_contexts_of_remaining_entries_unchanged */
-__CPROVER_ensures((!(PUT_FIRST(cache, ssl_ctx) && xv_g_c0 == 1)) ==> (O0(cache)->hash[xv_hj] == __CPROVER_old(L0(cache)->hash[xv_hj]) && O0(cache)->ssl_ctx == __CPROVER_old(L0(cache)->ssl_ctx)))
-__CPROVER_ensures((xv_g_n >= 2 && !(!PUT_FIRST(cache, ssl_ctx) && xv_g_c1 == 1)) ==> (O1(cache)->hash[xv_hj] == __CPROVER_old(L1(cache)->hash[xv_hj]) && O1(cache)->ssl_ctx == __CPROVER_old(L1(cache)->ssl_ctx)))
+__CPROVER_ensures(!PUT_F_LAST(cache, ssl_ctx) ==> (O0(cache)->hash[xv_hj] == __CPROVER_old(L0(cache)->hash[xv_hj]) && O0(cache)->ssl_ctx == __CPROVER_old(L0(cache)->ssl_ctx)))
+__CPROVER_ensures((HAD2(cache) && !PUT_S_LAST(cache, ssl_ctx)) ==> (O1(cache)->hash[xv_hj] == __CPROVER_old(L1(cache)->hash[xv_hj]) && O1(cache)->ssl_ctx == __CPROVER_old(L1(cache)->ssl_ctx)))
+;
+
+/* ---- the API of the store ------------------------------------------------------------------------------------------
+ * Postconditions are stated over the two ghost snapshots the lock model takes: xv_acq (the list THIS critical section
+ * found: any list satisfying the invariant) and xv_pub (the list it published at the release).  Nothing is claimed
+ * about the cache after the release -- other threads own it again. */
+#define XV_SNAP_SAME_ENTRY(i, k) (xv_pub.e[i] == xv_acq.e[k] && xv_pub.ctx[i] == xv_acq.ctx[k] && xv_pub.hj[i] == xv_acq.hj[k])
+#define XV_LOCK_ONCE (!xv_lk_held && xv_lk_acq == __CPROVER_old(xv_lk_acq) + 1 && xv_lk_rel == __CPROVER_old(xv_lk_rel) + 1)
+
+/* ctx_store_put: C15 lock taken once and released; C18/C08 "cached TLS contexts are released when the last socket using
+ * them is closed": the entry of THIS context loses one user, at 0 it leaves the cache and its SSL_CTX is freed exactly
+ * once; every other entry keeps place, use count, hash and context.
+ * requires: the caller holds a reference on ssl_ctx (xv_my_ctx/xv_my_refs, invariant I4) -- without one the real code
+ * runs into ut_assert(entry != NULL) or takes away somebody else's reference. */
+void ctx_store_put(SSL_CTX *ssl_ctx)
+__CPROVER_requires(!xv_lk_held && XV_LK_CNT_OK && cache.entries.lh_first == xv_cs_shadow && xv_cachep == &cache)
+__CPROVER_requires(ssl_ctx != NULL && ssl_ctx == xv_my_ctx && xv_my_refs >= 1 && xv_my_refs_after == xv_my_refs - 1)
+__CPROVER_requires(XV_LIVE_OK(xv_heap_live) && XV_LIVE_OK(xv_ctx_live) && XV_LIVE_OK(xv_ctxfree_calls) && xv_ctx_dead == NULL && xv_hj < 32)
+__CPROVER_assigns(XV_LK_ASSIGNS, XV_CS_ASSIGNS, xv_heap_live, xv_ctx_live, xv_ctxfree_calls, xv_ctxfree_last, xv_ctx_dead)
+/* PO[C15] ctx_store_put.lock_taken_once_and_released */
+__CPROVER_ensures(XV_LOCK_ONCE)
+/* PO[C15] ctx_store_put.list_head_not_written_after_release */
+__CPROVER_ensures(cache.entries.lh_first == xv_cs_shadow)
+/* PO[C08,C18] ctx_store_put.first_entry_other_users_remain */
+__CPROVER_ensures((xv_acq.ctx[0] == ssl_ctx && xv_acq.cnt[0] > 1) ==> (xv_pub.n == xv_acq.n && XV_SNAP_SAME_ENTRY(0, 0) && xv_pub.cnt[0] == xv_acq.cnt[0] - 1 && \
+                  (xv_acq.n == 2 ==> (XV_SNAP_SAME_ENTRY(1, 1) && xv_pub.cnt[1] == xv_acq.cnt[1]))))
+/* PO[C08,C18] ctx_store_put.second_entry_other_users_remain */
+__CPROVER_ensures((xv_acq.ctx[0] != ssl_ctx && xv_acq.cnt[1] > 1) ==> (xv_pub.n == 2 && XV_SNAP_SAME_ENTRY(0, 0) && xv_pub.cnt[0] == xv_acq.cnt[0] && XV_SNAP_SAME_ENTRY(1, 1) && xv_pub.cnt[1] == xv_acq.cnt[1] - 1))
+/* PO[C08,C18] ctx_store_put.other_users_remain_nothing_freed */
+__CPROVER_ensures(((xv_acq.ctx[0] == ssl_ctx && xv_acq.cnt[0] > 1) || (xv_acq.ctx[0] != ssl_ctx && xv_acq.cnt[1] > 1)) ==> \
+                  (xv_ctxfree_calls == __CPROVER_old(xv_ctxfree_calls) && xv_heap_live == __CPROVER_old(xv_heap_live)))
+/* PO[C08,C18] ctx_store_put.first_entry_last_user_entry_leaves_the_cache */
+__CPROVER_ensures((xv_acq.ctx[0] == ssl_ctx && xv_acq.cnt[0] == 1) ==> (xv_pub.n == xv_acq.n - 1 && (xv_acq.n == 2 ==> (XV_SNAP_SAME_ENTRY(0, 1) && xv_pub.cnt[0] == xv_acq.cnt[1]))))
+/* PO[C08,C18] ctx_store_put.second_entry_last_user_entry_leaves_the_cache */
+__CPROVER_ensures((xv_acq.ctx[0] != ssl_ctx && xv_acq.cnt[1] == 1) ==> (xv_pub.n == 1 && XV_SNAP_SAME_ENTRY(0, 0) && xv_pub.cnt[0] == xv_acq.cnt[0]))
+/* PO[C08,C18] ctx_store_put.last_user_context_freed_exactly_once */
+__CPROVER_ensures(((xv_acq.ctx[0] == ssl_ctx && xv_acq.cnt[0] == 1) || (xv_acq.ctx[0] != ssl_ctx && xv_acq.cnt[1] == 1)) ==> \
+                  (xv_ctxfree_calls == __CPROVER_old(xv_ctxfree_calls) + 1 && xv_ctxfree_last == ssl_ctx && xv_ctx_live == __CPROVER_old(xv_ctx_live) - 1 && xv_heap_live == __CPROVER_old(xv_heap_live) - 1))
+;
+
+
+/* load_ssl_ctx is a CUT POINT in job ctx_store_get_ctx (XV_LSC_RECORD): its contract then also records the arguments and
+ * the moment of the call in ghost variables that nothing else reads (observation only, no constraint on real state), and
+ * the string shape of the data, which the job of load_ssl_ctx itself assumes (strings of < XV_LSC_STR bytes), is not
+ * asserted (the data come out of ut_strdup / ut_load_text_file, NUL-terminated by construction) */
+#ifdef XV_LSC_RECORD
+#define XV_LSC_STRINGS 1
+#define XV_LSC_GHOST_OK (XV_LIVE_OK(xv_lsc_calls))
+#define XV_LSC_ASSIGNS xv_lsc_calls, xv_lsc_cert, xv_lsc_key, xv_lsc_tc, xv_lsc_crl, xv_lsc_at_md
+#define XV_LSC_ENSURES __CPROVER_ensures(xv_lsc_calls == __CPROVER_old(xv_lsc_calls) + 1 && xv_lsc_cert == cert_data && xv_lsc_key == key_data && xv_lsc_tc == tc_data && xv_lsc_crl == crl_data && xv_lsc_at_md == xv_md_calls)
+#else
+#define XV_LSC_STR 6
+#define XV_LSC_S(p) (__CPROVER_is_fresh((p), XV_LSC_STR) && (p)[XV_LSC_STR - 1] == 0)
+#define XV_LSC_STRINGS (XV_LSC_S(cert_data) && XV_LSC_S(key_data) && (tc_data == NULL || XV_LSC_S(tc_data)) && (crl_data == NULL || XV_LSC_S(crl_data)))
+#define XV_LSC_GHOST_OK XV_OSSL_GHOST_OK
+#define XV_LSC_ASSIGNS XV_OSSL_ASSIGNS
+#define XV_LSC_ENSURES XV_OSSL_ENSURES
+#endif
+/* ---- cut points of ctx_store_get_ctx */
+#define XV_VAL 4      /* designated file names / values are NUL-terminated strings of 0..3 bytes in the jobs of this unit */
+#define ITEM_TYPE_OK(i) ((i)->type == item_type_none || (i)->type == item_type_file || (i)->type == item_type_value)
+#define XV_DG_ASSIGNS __CPROVER_object_whole(xv_dg_log), xv_dg_len, xv_dg_updates, xv_stat_calls, xv_lstat_calls
+
+/* hash_item: feeds the designation of ONE item to the digest; does not touch errno (stat's errno is restored);
+ * nothing is fed for an unset item; fails only for a file that cannot be stat()ed */
+static int hash_item(const struct item *item, EVP_MD_CTX *ctx, void *log_ref)
+__CPROVER_requires(__CPROVER_r_ok(item, sizeof(struct item)) && ITEM_TYPE_OK(item) && (item->type != item_type_none ==> __CPROVER_r_ok(item->data, 1)))
+__CPROVER_requires(__CPROVER_r_ok(ctx, 1) && XV_LIVE_OK(xv_dg_updates) && XV_LIVE_OK(xv_stat_calls) && XV_LIVE_OK(xv_lstat_calls) && xv_dg_len <= XV_DG_MAX)
+__CPROVER_assigns(XV_DG_ASSIGNS)
+__CPROVER_ensures(__CPROVER_return_value == 0 || (__CPROVER_return_value == -1 && item->type == item_type_file))
+__CPROVER_ensures(item->type == item_type_none ==> (xv_dg_updates == __CPROVER_old(xv_dg_updates) && xv_dg_len == __CPROVER_old(xv_dg_len)))
+__CPROVER_ensures(xv_dg_updates >= __CPROVER_old(xv_dg_updates) && XV_LIVE_OK(xv_dg_updates) && XV_LIVE_OK(xv_stat_calls) && XV_LIVE_OK(xv_lstat_calls) && xv_dg_len <= XV_DG_MAX)
+;
+
+/* load_ssl_ctx: C18 "unreadable, malformed or mismatching material fails with EPROTO"; C08 no SSL_CTX is leaked on the
+ * error ladder.  requires: certificate and key data are present (install_cert/install_key take strlen() of them). */
+static SSL_CTX *load_ssl_ctx(const char *cert_data, const char *key_data, const char *tc_data, const char *crl_data, uint8_t *hash, void *log_ref)
+/* PO[C18] load_ssl_ctx.called_with_certificate_and_key_data */
+__CPROVER_requires(cert_data != NULL && key_data != NULL)
+__CPROVER_requires(XV_LSC_STRINGS)
+__CPROVER_requires(XV_LIVE_OK(xv_ctx_live) && XV_LIVE_OK(xv_ctxfree_calls) && XV_LSC_GHOST_OK)
+__CPROVER_assigns(xv_errno, xv_ctx_live, xv_ctxfree_calls, xv_ctxfree_last, xv_ctx_dead, XV_LSC_ASSIGNS)
+/* PO[C18] load_ssl_ctx.null_means_eproto */
+__CPROVER_ensures(__CPROVER_return_value == NULL ==> xv_errno == EPROTO)
+/* PO[C08] load_ssl_ctx.failure_leaks_no_context */
+__CPROVER_ensures(__CPROVER_return_value == NULL ==> (xv_ctx_live == __CPROVER_old(xv_ctx_live) && (xv_ctx_dead == __CPROVER_old(xv_ctx_dead) || __CPROVER_is_fresh(xv_ctx_dead, 1))))
+__CPROVER_ensures(__CPROVER_return_value != NULL ==> (__CPROVER_is_fresh(__CPROVER_return_value, 1) && xv_ctx_live == __CPROVER_old(xv_ctx_live) + 1 && \
+                  xv_ctxfree_calls == __CPROVER_old(xv_ctxfree_calls) && xv_ctx_dead == __CPROVER_old(xv_ctx_dead)))
+__CPROVER_ensures(XV_LIVE_OK(xv_ctxfree_calls))
+XV_LSC_ENSURES
+;
+
+/* ctx_store_get_ctx.
+ * C15: lock taken once, released on EVERY exit path (the goto out / out_free ladders included).
+ * C18: NULL => errno == EPROTO; a context is returned either from an entry found under the digest of the CURRENT
+ *      designation, or loaded from data that was read between two EQUAL digests of the designation and installed under
+ *      that digest; entries of other designations keep place, use count, hash and context.
+ * C08: exactly one more user on a hit / exactly one new entry with one user on a miss; on failure the cache is as found
+ *      and no heap block, SSL_CTX or EVP_MD_CTX of this call survives.
+ * requires: certificate and key are designated (btls finalize_tls_conf always sets them). */
+#define XV_ITEM_FRESH(i) (__CPROVER_is_fresh((i), sizeof(struct item)))
+#define XV_ITEM_DATA(i) (ITEM_TYPE_OK(i) && ((i)->type != item_type_none ==> __CPROVER_is_fresh((i)->data, XV_VAL)) && ((i)->type != item_type_none ==> (i)->data[XV_VAL - 1] == 0))
+#define XV_ISSET(i) ((i)->type != item_type_none ? 1 : 0)
+#define XV_GET_HIT0(r) (xv_acq.n >= 1 && (r) == xv_acq.ctx[0])
+#define XV_GET_HIT1(r) (xv_acq.n >= 2 && (r) == xv_acq.ctx[1])
+#define XV_GET_NEW(r) ((r) != NULL && !XV_GET_HIT0(r) && !XV_GET_HIT1(r))
+SSL_CTX *ctx_store_get_ctx(const struct item *cert, const struct item *key, const struct item *tc, const struct item *crl, void *log_ref)
+__CPROVER_requires(XV_ITEM_FRESH(cert) && XV_ITEM_FRESH(key) && XV_ITEM_FRESH(tc) && XV_ITEM_FRESH(crl))
+__CPROVER_requires(XV_ITEM_DATA(cert) && XV_ITEM_DATA(key) && XV_ITEM_DATA(tc) && XV_ITEM_DATA(crl) && cert->type != item_type_none && key->type != item_type_none)
+__CPROVER_requires(!xv_lk_held && XV_LK_CNT_OK && cache.entries.lh_first == xv_cs_shadow && xv_cachep == &cache && xv_hj < 32)
+__CPROVER_requires(XV_LIVE_OK(xv_heap_live) && XV_LIVE_OK(xv_ctx_live) && XV_LIVE_OK(xv_ctxfree_calls) && xv_ctx_dead == NULL && XV_LIVE_OK(xv_mdctx_live) && XV_LIVE_OK(xv_md_calls) && \
+                   XV_LIVE_OK(xv_ld_calls) && XV_LIVE_OK(xv_dg_updates) && XV_LIVE_OK(xv_stat_calls) && XV_LIVE_OK(xv_lstat_calls) && xv_dg_len <= XV_DG_MAX && XV_LSC_GHOST_OK && \
+                   xv_ld_since_md >= 0 && xv_ld_since_md < 1000 && xv_md_settle == xv_md_calls + 3 && xv_snprintf_calls >= 0 && xv_snprintf_calls < 1000000)
+__CPROVER_assigns(XV_LK_ASSIGNS, XV_CS_ASSIGNS, xv_errno, xv_heap_live, xv_ctx_live, xv_ctxfree_calls, xv_ctxfree_last, xv_ctx_dead, XV_LSC_ASSIGNS, XV_DG_ASSIGNS, \
+                  xv_mdctx_live, xv_md_calls, __CPROVER_object_whole(xv_md_last), __CPROVER_object_whole(xv_md_prev), xv_ld_calls, xv_ld_since_md, xv_ld_between, \
+                  __CPROVER_object_whole(xv_ld_res), __CPROVER_object_whole(xv_ldb_res), xv_snprintf_ret, xv_snprintf_cap, xv_snprintf_calls)
+/* PO[C15] ctx_store_get_ctx.lock_taken_once_and_released_on_every_exit_path */
+__CPROVER_ensures(XV_LOCK_ONCE)
+/* PO[C15] ctx_store_get_ctx.list_head_not_written_after_release */
+__CPROVER_ensures(cache.entries.lh_first == xv_cs_shadow)
+/* PO[C18] ctx_store_get_ctx.null_means_eproto */
+__CPROVER_ensures(__CPROVER_return_value == NULL ==> xv_errno == EPROTO)
+/* PO[C08,C18] ctx_store_get_ctx.failure_leaves_the_cache_as_found */
+__CPROVER_ensures(__CPROVER_return_value == NULL ==> (xv_pub.n == xv_acq.n && (xv_acq.n >= 1 ==> (XV_SNAP_SAME_ENTRY(0, 0) && xv_pub.cnt[0] == xv_acq.cnt[0])) && \
+                  (xv_acq.n >= 2 ==> (XV_SNAP_SAME_ENTRY(1, 1) && xv_pub.cnt[1] == xv_acq.cnt[1]))))
+/* PO[C08] ctx_store_get_ctx.no_heap_block_context_or_digest_context_leaked */
+__CPROVER_ensures(xv_heap_live == __CPROVER_old(xv_heap_live) + (XV_GET_NEW(__CPROVER_return_value) ? 1 : 0) && \
+                  xv_ctx_live == __CPROVER_old(xv_ctx_live) + (XV_GET_NEW(__CPROVER_return_value) ? 1 : 0) && xv_mdctx_live == __CPROVER_old(xv_mdctx_live))
+/* PO[C08,C18] ctx_store_get_ctx.hit_first_entry_one_more_user_nothing_else */
+__CPROVER_ensures(XV_GET_HIT0(__CPROVER_return_value) ==> (xv_pub.n == xv_acq.n && XV_SNAP_SAME_ENTRY(0, 0) && xv_pub.cnt[0] == xv_acq.cnt[0] + 1 && \
+                  (xv_acq.n >= 2 ==> (XV_SNAP_SAME_ENTRY(1, 1) && xv_pub.cnt[1] == xv_acq.cnt[1]))))
+/* PO[C08,C18] ctx_store_get_ctx.hit_second_entry_one_more_user_nothing_else */
+__CPROVER_ensures((!XV_GET_HIT0(__CPROVER_return_value) && XV_GET_HIT1(__CPROVER_return_value)) ==> (xv_pub.n == 2 && XV_SNAP_SAME_ENTRY(0, 0) && xv_pub.cnt[0] == xv_acq.cnt[0] && \
+                  XV_SNAP_SAME_ENTRY(1, 1) && xv_pub.cnt[1] == xv_acq.cnt[1] + 1))
+/* PO[C18] ctx_store_get_ctx.hit_entry_is_keyed_by_the_digest_of_the_current_designation */
+__CPROVER_ensures((XV_GET_HIT0(__CPROVER_return_value) || XV_GET_HIT1(__CPROVER_return_value)) ==> (xv_md_calls > __CPROVER_old(xv_md_calls) && xv_lsc_calls == __CPROVER_old(xv_lsc_calls) && \
+                  (XV_GET_HIT0(__CPROVER_return_value) ? xv_acq.hj[0] : xv_acq.hj[1]) == xv_md_last[xv_hj]))
+/* PO[C08,C18] ctx_store_get_ctx.miss_installs_one_entry_with_one_user_others_untouched */
+__CPROVER_ensures(XV_GET_NEW(__CPROVER_return_value) ==> (xv_pub.n == xv_acq.n + 1 && xv_pub.cnt[0] == 1 && xv_pub.ctx[0] == __CPROVER_return_value && \
+                  (xv_acq.n >= 1 ==> (XV_SNAP_SAME_ENTRY(1, 0) && xv_pub.cnt[1] == xv_acq.cnt[0])) && (xv_acq.n >= 2 ==> (XV_SNAP_SAME_ENTRY(2, 1) && xv_pub.cnt[2] == xv_acq.cnt[1]))))
+/* PO[C18] ctx_store_get_ctx.new_context_loaded_from_data_read_between_two_equal_digests */
+__CPROVER_ensures(XV_GET_NEW(__CPROVER_return_value) ==> (xv_lsc_calls == __CPROVER_old(xv_lsc_calls) + 1 && xv_lsc_at_md == xv_md_calls && xv_md_calls >= __CPROVER_old(xv_md_calls) + 2 && \
+                  xv_md_prev[xv_hj] == xv_md_last[xv_hj] && xv_pub.hj[0] == xv_md_last[xv_hj] && xv_ld_since_md == 0 && \
+                  xv_ld_between == XV_ISSET(cert) + XV_ISSET(key) + XV_ISSET(tc) + XV_ISSET(crl)))
+/* PO[C18] ctx_store_get_ctx.new_context_loaded_from_the_data_of_the_four_designated_items_in_order */
+__CPROVER_ensures(XV_GET_NEW(__CPROVER_return_value) ==> (xv_lsc_cert == xv_ldb_res[0] && xv_lsc_key == xv_ldb_res[1] && \
+                  xv_lsc_tc == (tc->type != item_type_none ? xv_ldb_res[2] : NULL) && xv_lsc_crl == (crl->type != item_type_none ? xv_ldb_res[2 + XV_ISSET(tc)] : NULL)))
 ;
 #endif /* XV_LOCKS_CS */
 
